@@ -39,7 +39,7 @@ def maximal_arith(fnode):
 
 
 class Site(object):
-    def __init__(self, expr):
+    def __init__(self, expr, sign_names=SIGN_NAMES):
         self.expr = expr
         self.poly = poly(expr)
         pos = {}
@@ -50,7 +50,7 @@ class Site(object):
         self.pos = pos
         atoms = set(a for m in self.poly for a in m)
         self.sign = None
-        cands = [a for a in atoms if a in SIGN_NAMES]
+        cands = [a for a in atoms if a in sign_names]
         if len(cands) == 1:
             self.sign = cands[0]
         self.terms = []     # (field atom, coefficient, has_sign)
@@ -93,7 +93,10 @@ class Site(object):
 
 
 def unit_sites(func):
-    return [s for s in (Site(e) for e in maximal_arith(func.node)) if s.is_unit_site]
+    # sign factors: local names only ever assigned +1 / -1 (whatever they are called)
+    from .rules_common import sign_variables
+    names = sign_variables(func.node) | (SIGN_NAMES & set(a.arg for a in func.node.args.args))
+    return [s for s in (Site(e, names) for e in maximal_arith(func.node)) if s.is_unit_site]
 
 
 def check_function(ctx, rule, func, min_sites=1, relative=False):
